@@ -78,6 +78,9 @@ void selectNet(const std::string& name);
 void beginUnit(const vf::Scenario& sc, History& h);
 void setTTYield(bool on);
 
+/** GUI ops of the form "x <text>" are handed to this callback (e.g. file manipulation between commands). */
+extern void (*customOp)(const std::string& text);
+
 /** Hooks for other checks that want to observe evaluations etc. inside session runs. */
 extern void (*evalObserver)(const void* pos, int whiteContempt, int score, int fromCache);
 
